@@ -243,6 +243,9 @@ def run_tlc(spec, cfg_text, *, workers=None, dump=False, env=None, timeout=900,
         if dump:
             p = dump_path + ".dump" if os.path.exists(dump_path + ".dump") else dump_path
             res["states"] = parse_dump(p)
+            # TLC's workers write the dump in whatever order they reach the states: put them in a canonical order, so that
+            # "the i-th cell" (and every seed derived from i) is the same cell in every run
+            res["states"].sort(key=lambda st: json.dumps(st, sort_keys=True, default=str))
         if coverage:
             res["coverage"] = parse_coverage(out)
         return res
